@@ -144,10 +144,20 @@ func (w *world) applyDev(a kv) {
 		case "hasmode":
 			if w.kind == "hwmon" {
 				touch(w.dir+"/pwm1_enable", v == "1")
+				if v == "1" {
+					verifhook.Bind(w.dir+"/pwm1_enable", w.dev, verifhook.RegMode)
+				} else {
+					verifhook.Unbind(w.dir + "/pwm1_enable")
+				}
 			}
 		case "hasrpm":
 			if w.kind == "hwmon" {
 				touch(w.dir+"/fan1_input", v == "1")
+			}
+			if v == "1" {
+				verifhook.Bind(w.dir+"/fan1_input", w.dev, verifhook.RegRpm)
+			} else {
+				verifhook.Unbind(w.dir + "/fan1_input")
 			}
 		}
 	}
